@@ -29,7 +29,12 @@ type Case struct {
 	Doc   string `json:"doc"`
 	Depth int    `json:"wrapper_depth"` // 0: the root is the target; 1, 2: targets are children at that depth
 	Mode  string `json:"mode"`          // tree | typed
+	// Reuse (wrapper depth 0 only): the value that captures the document already holds an earlier capture of another
+	// document; it must hold the tree it captured last (after C15-s16)
+	Reuse bool `json:"reuse,omitempty"`
 }
+
+const warmDoc = `<w:warm xmlns:w="urn:warm" w:k="v"><w:kid/>earlier<other xmlns="urn:warm2"/></w:warm>`
 
 // ---------------------------------------------------------------------------
 // lexical generator
@@ -134,14 +139,18 @@ func (g *gen) element(b *strings.Builder, scope map[string]string, depth int, fo
 	seen := map[string]bool{}
 	na := g.pick("nattr", 4)
 	for i := 0; i < na; i++ {
-		local := []string{"a", "b", "id", "name", "lang"}[g.pick("alocal", 5)]
+		// "xmlns" and "xml" as the local part of a prefixed attribute are ordinary attributes (after C15-s17); without a
+		// prefix "xmlns" would be a declaration, so there it is replaced
+		local := []string{"a", "b", "id", "name", "lang", "xmlns", "xml"}[g.pick("alocal", 7)]
 		space, q := "", local
+		prefixed := false
 		switch g.pick("akind", 4) {
 		case 0:
 			if len(inScope) > 0 {
 				p := inScope[g.pick("aprefix", len(inScope))]
 				if p != "" {
 					space, q = inner[p], p+":"+local
+					prefixed = true
 					g.features["prefixed-attr"] = true
 				}
 			}
@@ -149,6 +158,9 @@ func (g *gen) element(b *strings.Builder, scope map[string]string, depth int, fo
 			if g.pick("xmllang", 3) == 0 {
 				space, q = "xml", "xml:lang"
 			}
+		}
+		if !prefixed && q != "xml:lang" && (local == "xmlns" || local == "xml") {
+			local, q = "a", "a"
 		}
 		key := space + "\x00" + local
 		if q == "xml:lang" {
@@ -337,6 +349,15 @@ func capture(c Case) ([]internal.RawXMLValue, error) {
 	switch c.Depth {
 	case 0:
 		var raw internal.RawXMLValue
+		if c.Reuse {
+			if err := xml.Unmarshal([]byte(warmDoc), &raw); err != nil {
+				return nil, err
+			}
+			// used once, as a caller would before decoding into it again
+			if _, err := xml.Marshal(&raw); err != nil {
+				return nil, err
+			}
+		}
 		err := xml.Unmarshal([]byte(c.Doc), &raw)
 		return []internal.RawXMLValue{raw}, err
 	case 1:
@@ -676,6 +697,10 @@ func TestTrees(t *testing.T) {
 		c, f := genDoc(rt, false)
 		for k := range f {
 			rec.Count("feature/"+k, 1)
+		}
+		if c.Depth == 0 && rapid.IntRange(0, 2).Draw(rt, "reuse") == 0 {
+			c.Reuse = true
+			rec.Count("feature/second-capture-into-a-used-value", 1)
 		}
 		runCase(t, rt, c, fmt.Sprintf("tree/wrap%d", c.Depth), f["outer-binding"] || f["redeclare"] || f["undeclare"] || f["prefixed-attr"])
 	})
